@@ -1,5 +1,5 @@
 """C06 — incremental update is sound: marked changes are never missed (DESIGN.md §9 C06)."""
-import json
+import json, copy
 from . import core, tmplgen as tg, render, update as up
 
 THEOREMS = [
@@ -85,6 +85,13 @@ def run(chk):
             for variant in (u, True, up.coarsen(rng.fork(("co", len(srcs))), u)):
                 srcs.append(src)
                 plans.append(([D0, D1], [{"create": D0}, {"update": D1, "U": up.tree_to_req(variant)}]))
+    # path writes through the REAL tree builder (tmpl/index.ts): setData-style changes, some of which create an intermediate object
+    for src, D0, changes in path_write_scenarios():
+        D1 = copy.deepcopy(D0)
+        for (pth, v) in changes:
+            write_path(D1, pth, v)
+        srcs.append(src)
+        plans.append(([D0, D1], [{"create": D0}, {"changes": [[list(pth), v] for (pth, v) in changes], "D": D1}]))
     run_histories(chk, srcs, plans)
 
 
@@ -126,6 +133,46 @@ def directed_scenarios():
              ({"o": {"a": 1}, "q": {"k": 1, "n": "x"}}, {"o": {"a": 1}, "q": {"k": 1, "n": "y"}})]
     for dexpr in ("x: o && q", "x: o ? q : o", "x: q, y: o", "...q, k: o.a", "x: [o, q][1]", "x: {k: q.k, n: q.n}"):
         out.append(('<template name="t">{{x.k}}{{x.n}}{{k}}{{n}}</template><template is="t" data="{{ %s }}"/>' % dexpr, tdata))
+    return out
+
+
+def write_path(D, path, v):
+    """what DataGroup.applyDataUpdates does for a multi-level path of field names: missing / null intermediates are created as {}"""
+    cur = D
+    for seg in path[:-1]:
+        if not isinstance(cur.get(seg), dict):
+            assert cur.get(seg) is None, "the family only writes through objects and missing fields"
+            cur[seg] = {}
+        cur = cur[seg]
+    cur[path[-1]] = v
+
+
+def path_write_scenarios():
+    """[(template, D0, [(path, value)])]: bindings whose value moves between operands (object spread, conditionals, logic operators, array
+    literals, template data) x one or two path writes, incl. writes that create an intermediate object; the update-path tree is the one
+    the framework builds from the change list"""
+    D0 = {"x": {"d": 1, "c": 5}, "o": {}, "p": {"a": {"d": 7}}, "c": 0}
+    exprs = ["{a:x,...o}.a.d", "{...o,a:x}.a.d", "{...p,...o}.a.d", "{...o,...p}.a.d", "{a:x,...o}.a", "{a:x,...o}.a.c", "(c?x:o.a).d", "(o.a||x).d",
+             "(o.a??x).d", "(o.a&&x).d", "[x,o.a][1].d", "[x,o.a][c].d", "{a:o.a}.a.c", "{a:o.a,b:x}.a.d", "o.a.c", "o.a.d", "o.a", "o[x.d==1?'a':'b'].c",
+             "{a:x,...p,...o}.a.d", "{...{a:x},...o}.a.d", "f(o.a).d"]
+    writes = [(("o", "a", "c"), 1), (("o", "a"), {"d": 2}), (("o", "b", "c"), 1), (("p", "a", "d"), 8), (("o", "a", "d"), 3), (("x", "d"), 2),
+              (("c",), 1), (("p", "b", "d"), 4), (("o", "a", "e", "f"), 1)]
+    tdata = ["a:x,...o", "...o,a:x", "...p,...o", "a:x,...p,...o", "a:o.a", "a:c?x:o.a", "a:o.a||x"]
+    out = []
+    for e in exprs:
+        src = "<v>{{ %s }}</v>" % e
+        for i, w in enumerate(writes):
+            out.append((src, D0, [w]))
+            for w2 in writes[i + 1:]:
+                if w[0][:len(w2[0])] != w2[0] and w2[0][:len(w[0])] != w[0]:
+                    out.append((src, D0, [w, w2]))
+    for d in tdata:
+        src = '<template name="t"><v>{{a.d}}</v><v>{{a.c}}</v><v>{{a.e.f}}</v></template><template is="t" data="{{ %s }}"/>' % d
+        for i, w in enumerate(writes):
+            out.append((src, D0, [w]))
+            for w2 in writes[i + 1:]:
+                if w[0][:len(w2[0])] != w2[0] and w2[0][:len(w[0])] != w[0]:
+                    out.append((src, D0, [w, w2]))
     return out
 
 
